@@ -128,6 +128,12 @@ def r3_dedup(ctx):
     f = force(body, tbl)
     after = f.reach_from(a["present"][0][0])
     r.check(not any(b in after for b in oks), "present=>err", "a present marker cannot lead to Ok", "with the marker present Ok is still reachable", body.where(a["present"][0][0]))
+    # "at most once" needs the marker to be looked at for EVERY faucet: a faucet path to Ok that goes around the lookup (a fast path that
+    # decides "no marker can exist" from something else — a count, a flag, a cache) accepts whatever that shortcut gets wrong.
+    f0 = force(body, base)
+    around = f0.reach_from(0, avoid=[a["present"][0][0]])
+    r.check(not any(b in around for b in oks), "lookup/every-path", "every accepted faucet passes the marker lookup",
+            "a faucet reaches Ok without the marker lookup being made (a path goes around it)", body.where(a["present"][0][0]))
     ins = q.call_exprs(body, "CoinMapping::insert_coin")
     r.check(len(ins) == 1, "insert/one", "one marker insertion", "%d insertions" % len(ins))
     tbl2 = dict(base)
